@@ -360,6 +360,7 @@ func runProperty(e *sym.Engine, spec *propSpec, tier string, seed int, workers i
 
 	// aggregate
 	states, transitions, asserts, triv := 0, 0, 0, 0
+	confirms, confirmed := 0, 0
 	covers := map[string]bool{}
 	funcs := map[string]int{}
 	contracts := map[string]bool{}
@@ -370,6 +371,8 @@ func runProperty(e *sym.Engine, spec *propSpec, tier string, seed int, workers i
 		transitions += rep.Branches
 		asserts += rep.Asserts
 		triv += rep.AssertsTriv
+		confirms += rep.Confirms
+		confirmed += rep.Confirmed
 		for k := range rep.Covers {
 			covers[k] = true
 		}
@@ -462,6 +465,8 @@ func runProperty(e *sym.Engine, spec *propSpec, tier string, seed int, workers i
 			"assertion_instances":           asserts,
 			"assertion_instances_decided_by_path_condition": triv,
 			"queries":                       queries,
+			"unsat_verdicts_put_to_second_solver":  confirms,
+			"unsat_verdicts_confirmed_by_second_solver": confirmed,
 			"solver_time_s":                 solverTime,
 			"cover_points":                  coverList,
 			"cover_points_missing":          missing,
